@@ -2,6 +2,7 @@
   C19 helper lemmas: `AdjInputData::write_xml` / `<adj-input-data>` reader round trip.
 -/
 import Gama.Model.AdjXml
+import Std.Data.String.ToNat
 namespace Gama
 namespace AdjXml
 
@@ -11,6 +12,23 @@ variable {K S : Type}
 structure Codec.Lawful (c : Codec K S) : Prop where
   rdF_fmtF : ∀ x, c.rdF (c.fmtF x) = some x
   rdN_fmtN : ∀ n, c.rdN (c.fmtN n) = some n
+
+/-- a printer with finitely many digits: reading back what was written gives the *quantised* number `q x`, and a
+    quantised number prints like the original (so a second dump is identical).  `Lawful` is the case `q = id`. -/
+structure Codec.Printer (c : Codec K S) (q : K → K) : Prop where
+  rdF_fmtF : ∀ x, c.rdF (c.fmtF x) = some (q x)
+  fmtF_q : ∀ x, c.fmtF (q x) = c.fmtF x
+  rdN_fmtN : ∀ n, c.rdN (c.fmtN n) = some n
+
+theorem Codec.Lawful.printer {c : Codec K S} (h : c.Lawful) : c.Printer id :=
+  ⟨h.rdF_fmtF, fun _ => rfl, h.rdN_fmtN⟩
+
+def qRow (q : K → K) (row : List (Nat × K)) : List (Nat × K) := row.map fun e => (e.1, q e.2)
+def Block.mapQ (q : K → K) (b : Block K) : Block K := ⟨b.dim, b.width, b.vals.map q⟩
+def SpMat.mapQ (q : K → K) (m : SpMat K) : SpMat K := ⟨m.rows, m.cols, m.rowsL.map (qRow q)⟩
+/-- the data with every number replaced by what the reader gets back for it -/
+def AdjData.mapQ (q : K → K) (d : AdjData K) : AdjData K :=
+  ⟨d.mat.map (SpMat.mapQ q), d.cov.map (List.map (Block.mapQ q)), d.rhs.map q, d.minx⟩
 
 theorem run_nil (c : Codec K S) (r : RS K S) : run c r [] = .ok r := rfl
 
@@ -37,12 +55,12 @@ theorem addElement_snoc (R C : Nat) (done : List (List (Nat × K))) (p : List (N
   simp [addElement, List.reverse_append]
 
 /-- one `<int>i</int><flt>x</flt>` pair inside a row -/
-theorem run_pair (c : Codec K S) (hc : c.Lawful) (r : RS K S) (R C : Nat) (done : List (List (Nat × K)))
+theorem run_pair (c : Codec K S) {q : K → K} (hc : c.Printer q) (r : RS K S) (R C : Nat) (done : List (List (Nat × K)))
     (p : List (Nat × K)) (i : Nat) (x : K) (m j : Nat)
     (hst : r.st = .smRow2) (hbuf : r.buf = []) (hmat : r.mat = some ⟨R, C, done ++ [p]⟩)
     (hm : r.matNonz = m + 1) (hj : r.rowNonz = j + 1) :
     run c r (el .int (c.fmtN i) ++ el .flt (c.fmtF x)) =
-      .ok { r with mat := some ⟨R, C, done ++ [p ++ [(i, x)]]⟩, matNonz := m, rowNonz := j } := by
+      .ok { r with mat := some ⟨R, C, done ++ [p ++ [(i, q x)]]⟩, matNonz := m, rowNonz := j } := by
   obtain ⟨st, buf, mat, matNonz, rowNonz⟩ := r
   simp only at hst hbuf hmat hm hj
   subst hst hbuf hmat hm hj
@@ -50,19 +68,19 @@ theorem run_pair (c : Codec K S) (hc : c.Lawful) (r : RS K S) (R C : Nat) (done 
     addElement_snoc, pure, Except.pure, throw, throwThe, MonadExceptOf.throw]
 
 /-- all `<int><flt>` pairs of a row -/
-theorem run_pairs (c : Codec K S) (hc : c.Lawful) (es : List (Nat × K)) :
+theorem run_pairs (c : Codec K S) {q : K → K} (hc : c.Printer q) (es : List (Nat × K)) :
     ∀ (r : RS K S) (R C : Nat) (done : List (List (Nat × K))) (p : List (Nat × K)) (m j : Nat),
       r.st = .smRow2 → r.buf = [] → r.mat = some ⟨R, C, done ++ [p]⟩ →
       r.matNonz = m + es.length → r.rowNonz = j + es.length →
       run c r (es.flatMap fun (i, x) => el .int (c.fmtN i) ++ el .flt (c.fmtF x)) =
-        .ok { r with mat := some ⟨R, C, done ++ [p ++ es]⟩, matNonz := m, rowNonz := j } := by
+        .ok { r with mat := some ⟨R, C, done ++ [p ++ qRow q es]⟩, matNonz := m, rowNonz := j } := by
   induction es with
   | nil =>
     intro r R C done p m j hst hbuf hmat hm hj
     obtain ⟨st, buf, mat, matNonz, rowNonz⟩ := r
     simp only at hst hbuf hmat hm hj
     subst hst hbuf hmat hm hj
-    simp [run_nil]
+    simp [run_nil, qRow]
   | cons e es ih =>
     intro r R C done p m j hst hbuf hmat hm hj
     obtain ⟨i, x⟩ := e
@@ -70,15 +88,15 @@ theorem run_pairs (c : Codec K S) (hc : c.Lawful) (es : List (Nat × K)) :
     have h1 := run_pair c hc r R C done p i x (m + es.length) (j + es.length) hst hbuf hmat
       (by simp [hm, List.length_cons]; omega) (by simp [hj, List.length_cons]; omega)
     rw [run_append_ok c _ h1]
-    rw [ih _ R C done (p ++ [(i, x)]) m j (by simp [hst]) (by simp [hbuf]) (by simp) (by simp) (by simp)]
-    simp [List.append_assoc]
+    rw [ih _ R C done (p ++ [(i, q x)]) m j (by simp [hst]) (by simp [hbuf]) (by simp) (by simp) (by simp)]
+    simp [List.append_assoc, qRow]
 
 /-- one `<row>` -/
-theorem run_row (c : Codec K S) (hc : c.Lawful) (r : RS K S) (R C : Nat) (done : List (List (Nat × K)))
+theorem run_row (c : Codec K S) {q : K → K} (hc : c.Printer q) (r : RS K S) (R C : Nat) (done : List (List (Nat × K)))
     (row : List (Nat × K)) (m : Nat)
     (hst : r.st = .sm4) (hbuf : r.buf = []) (hmat : r.mat = some ⟨R, C, done⟩)
     (hm : r.matNonz = m + row.length) :
-    run c r (writeRow c row) = .ok { r with mat := some ⟨R, C, done ++ [row]⟩, matNonz := m, rowNonz := 0 } := by
+    run c r (writeRow c row) = .ok { r with mat := some ⟨R, C, done ++ [qRow q row]⟩, matNonz := m, rowNonz := 0 } := by
   unfold writeRow
   -- <row> <nonz>n</nonz>
   have h1 : run c r ([.start .row] ++ el .nonz (c.fmtN row.length)) =
@@ -97,12 +115,12 @@ theorem run_row (c : Codec K S) (hc : c.Lawful) (r : RS K S) (R C : Nat) (done :
   simp [run_cons, run_nil, step, endEl, after, Except.bind, pure, Except.pure]
 
 /-- all rows -/
-theorem run_rows (c : Codec K S) (hc : c.Lawful) (rs : List (List (Nat × K))) :
+theorem run_rows (c : Codec K S) {q : K → K} (hc : c.Printer q) (rs : List (List (Nat × K))) :
     ∀ (r : RS K S) (R C : Nat) (done : List (List (Nat × K))) (m : Nat),
       r.st = .sm4 → r.buf = [] → r.mat = some ⟨R, C, done⟩ →
       r.matNonz = m + (rs.map List.length).sum →
       ∃ k, run c r (rs.flatMap (writeRow c)) =
-        .ok { r with mat := some ⟨R, C, done ++ rs⟩, matNonz := m, rowNonz := k } := by
+        .ok { r with mat := some ⟨R, C, done ++ rs.map (qRow q)⟩, matNonz := m, rowNonz := k } := by
   induction rs with
   | nil =>
     intro r R C done m hst hbuf hmat hm
@@ -117,18 +135,18 @@ theorem run_rows (c : Codec K S) (hc : c.Lawful) (rs : List (List (Nat × K))) :
     have h1 := run_row c hc r R C done row (m + (rs.map List.length).sum) hst hbuf hmat
       (by simp [hm]; omega)
     rw [run_append_ok c _ h1]
-    obtain ⟨k, h2⟩ := ih { r with mat := some ⟨R, C, done ++ [row]⟩, matNonz := m + (rs.map List.length).sum, rowNonz := 0 }
-      R C (done ++ [row]) m hst hbuf rfl rfl
+    obtain ⟨k, h2⟩ := ih { r with mat := some ⟨R, C, done ++ [qRow q row]⟩, matNonz := m + (rs.map List.length).sum, rowNonz := 0 }
+      R C (done ++ [qRow q row]) m hst hbuf rfl rfl
     refine ⟨k, ?_⟩
     rw [h2]
     simp [List.append_assoc]
 
 /-- the `<flt>` elements of a block -/
-theorem run_bflts (c : Codec K S) (hc : c.Lawful) (vs : List K) :
+theorem run_bflts (c : Codec K S) {q : K → K} (hc : c.Printer q) (vs : List K) :
     ∀ (r : RS K S) (acc : List K) (m j : Nat),
       r.st = .bdBlock3 → r.buf = [] → r.bdVec = acc → r.bdVecDim = j + vs.length → r.bdNonz = m + vs.length →
       run c r (vs.flatMap fun x => el .flt (c.fmtF x)) =
-        .ok { r with bdVec := acc ++ vs, bdVecDim := j, bdNonz := m } := by
+        .ok { r with bdVec := acc ++ vs.map q, bdVecDim := j, bdNonz := m } := by
   induction vs with
   | nil =>
     intro r acc m j hst hbuf hv hd hn
@@ -140,24 +158,24 @@ theorem run_bflts (c : Codec K S) (hc : c.Lawful) (vs : List K) :
     intro r acc m j hst hbuf hv hd hn
     rw [List.flatMap_cons]
     have h1 : run c r (el .flt (c.fmtF x)) =
-        .ok { r with bdVec := acc ++ [x], bdVecDim := j + vs.length, bdNonz := m + vs.length } := by
+        .ok { r with bdVec := acc ++ [q x], bdVecDim := j + vs.length, bdNonz := m + vs.length } := by
       obtain ⟨st, buf, mat, matNonz, rowNonz, cov, bdBlocks, bdNonz, bdDim, bdWidth, bdVec, bdVecDim⟩ := r
       simp only [List.length_cons] at hst hbuf hv hd hn
       subst hst hbuf hv hd hn
       simp [el, run_cons, run_nil, step, endEl, next, after, addsText, Except.bind, hc.rdF_fmtF, pure, Except.pure]
     rw [run_append_ok c _ h1]
-    rw [ih { r with bdVec := acc ++ [x], bdVecDim := j + vs.length, bdNonz := m + vs.length }
-      (acc ++ [x]) m j hst hbuf rfl rfl rfl]
+    rw [ih { r with bdVec := acc ++ [q x], bdVecDim := j + vs.length, bdNonz := m + vs.length }
+      (acc ++ [q x]) m j hst hbuf rfl rfl rfl]
     simp [List.append_assoc]
 
 /-- one `<block>` -/
-theorem run_block (c : Codec K S) (hc : c.Lawful) (r : RS K S) (done : List (Block K)) (b : Block K) (k m : Nat)
+theorem run_block (c : Codec K S) {q : K → K} (hc : c.Printer q) (r : RS K S) (done : List (Block K)) (b : Block K) (k m : Nat)
     (hst : r.st = .bd3) (hbuf : r.buf = []) (hcov : r.cov = some done)
     (hk : r.bdBlocks = k + 1) (hm : r.bdNonz = m + packedSize b.dim b.width)
     (hdim : 0 < b.dim) (hw : b.width < b.dim) (hlen : b.vals.length = packedSize b.dim b.width) :
     run c r (writeBlock c b) =
-      .ok { r with cov := some (done ++ [b]), bdBlocks := k, bdNonz := m, bdDim := b.dim, bdWidth := b.width,
-                   bdVec := b.vals, bdVecDim := 0 } := by
+      .ok { r with cov := some (done ++ [b.mapQ q]), bdBlocks := k, bdNonz := m, bdDim := b.dim, bdWidth := b.width,
+                   bdVec := b.vals.map q, bdVecDim := 0 } := by
   unfold writeBlock
   have h1 : run c r ([.start .block] ++ el .dim (c.fmtN b.dim) ++ el .width (c.fmtN b.width)) =
       .ok { r with st := .bdBlock3, bdDim := b.dim, bdWidth := b.width, bdVecDim := packedSize b.dim b.width,
@@ -174,15 +192,15 @@ theorem run_block (c : Codec K S) (hc : c.Lawful) (r : RS K S) (done : List (Blo
   simp only at hst hbuf hcov hk hm
   subst hst hbuf hcov hk hm
   obtain ⟨d, w, v⟩ := b
-  simp [run_cons, run_nil, step, endEl, after, Except.bind, pure, Except.pure]
+  simp [run_cons, run_nil, step, endEl, after, Except.bind, pure, Except.pure, Block.mapQ]
 
 /-- all blocks -/
-theorem run_blocks (c : Codec K S) (hc : c.Lawful) (bs : List (Block K)) :
+theorem run_blocks (c : Codec K S) {q : K → K} (hc : c.Printer q) (bs : List (Block K)) :
     ∀ (r : RS K S) (done : List (Block K)) (k m : Nat),
       r.st = .bd3 → r.buf = [] → r.cov = some done → r.bdBlocks = k + bs.length → r.bdNonz = m + covNonz bs →
       (∀ b ∈ bs, 0 < b.dim ∧ b.width < b.dim ∧ b.vals.length = packedSize b.dim b.width) →
       ∃ d w v z, run c r (bs.flatMap (writeBlock c)) =
-        .ok { r with cov := some (done ++ bs), bdBlocks := k, bdNonz := m, bdDim := d, bdWidth := w,
+        .ok { r with cov := some (done ++ bs.map (Block.mapQ q)), bdBlocks := k, bdNonz := m, bdDim := d, bdWidth := w,
                      bdVec := v, bdVecDim := z } := by
   induction bs with
   | nil =>
@@ -199,17 +217,17 @@ theorem run_blocks (c : Codec K S) (hc : c.Lawful) (bs : List (Block K)) :
     have h1 := run_block c hc r done b (k + bs.length) (m + covNonz bs) hst hbuf hcov
       (by simp [hk]; omega) (by simp [hm, covNonz]; omega) hd hw hl
     rw [run_append_ok c _ h1]
-    obtain ⟨d, w, v, z, h2⟩ := ih { r with cov := some (done ++ [b]), bdBlocks := k + bs.length, bdNonz := m + covNonz bs, bdDim := b.dim, bdWidth := b.width, bdVec := b.vals, bdVecDim := 0 }
-      (done ++ [b]) k m hst hbuf rfl rfl rfl (fun b' hb' => hwf b' (by simp [hb']))
+    obtain ⟨d, w, v, z, h2⟩ := ih { r with cov := some (done ++ [b.mapQ q]), bdBlocks := k + bs.length, bdNonz := m + covNonz bs, bdDim := b.dim, bdWidth := b.width, bdVec := b.vals.map q, bdVecDim := 0 }
+      (done ++ [b.mapQ q]) k m hst hbuf rfl rfl rfl (fun b' hb' => hwf b' (by simp [hb']))
     refine ⟨d, w, v, z, ?_⟩
     rw [h2]
     simp [List.append_assoc]
 
 /-- the `<flt>` elements of `<vector>` -/
-theorem run_vflts (c : Codec K S) (hc : c.Lawful) (vs : List K) :
+theorem run_vflts (c : Codec K S) {q : K → K} (hc : c.Printer q) (vs : List K) :
     ∀ (r : RS K S) (acc : List K) (j : Nat),
       r.st = .vec2 → r.buf = [] → r.vec = acc → r.vecDim = j + vs.length →
-      run c r (vs.flatMap fun x => el .flt (c.fmtF x)) = .ok { r with vec := acc ++ vs, vecDim := j } := by
+      run c r (vs.flatMap fun x => el .flt (c.fmtF x)) = .ok { r with vec := acc ++ vs.map q, vecDim := j } := by
   induction vs with
   | nil =>
     intro r acc j hst hbuf hv hd
@@ -220,17 +238,17 @@ theorem run_vflts (c : Codec K S) (hc : c.Lawful) (vs : List K) :
   | cons x vs ih =>
     intro r acc j hst hbuf hv hd
     rw [List.flatMap_cons]
-    have h1 : run c r (el .flt (c.fmtF x)) = .ok { r with vec := acc ++ [x], vecDim := j + vs.length } := by
+    have h1 : run c r (el .flt (c.fmtF x)) = .ok { r with vec := acc ++ [q x], vecDim := j + vs.length } := by
       obtain ⟨st, buf, mat, matNonz, rowNonz, cov, bdBlocks, bdNonz, bdDim, bdWidth, bdVec, bdVecDim, vec, vecCap, vecDim, arr, arrDim, out⟩ := r
       simp only [List.length_cons] at hst hbuf hv hd
       subst hst hbuf hv hd
       simp [el, run_cons, run_nil, step, endEl, next, after, addsText, Except.bind, hc.rdF_fmtF, pure, Except.pure]
     rw [run_append_ok c _ h1]
-    rw [ih { r with vec := acc ++ [x], vecDim := j + vs.length } (acc ++ [x]) j hst hbuf rfl rfl]
+    rw [ih { r with vec := acc ++ [q x], vecDim := j + vs.length } (acc ++ [q x]) j hst hbuf rfl rfl]
     simp [List.append_assoc]
 
 /-- the `<int>` elements of `<array>` -/
-theorem run_aints (c : Codec K S) (hc : c.Lawful) (vs : List Nat) :
+theorem run_aints (c : Codec K S) {q : K → K} (hc : c.Printer q) (vs : List Nat) :
     ∀ (r : RS K S) (acc : List Nat) (j : Nat),
       r.st = .arr2 → r.buf = [] → r.arr = some acc → r.arrDim = j + vs.length →
       run c r (vs.flatMap fun i => el .int (c.fmtN i)) = .ok { r with arr := some (acc ++ vs), arrDim := j } := by
@@ -254,9 +272,9 @@ theorem run_aints (c : Codec K S) (hc : c.Lawful) (vs : List Nat) :
     simp [List.append_assoc]
 
 /-- `<sparse-mat> … </sparse-mat>` -/
-theorem run_mat (c : Codec K S) (hc : c.Lawful) (r : RS K S) (m : SpMat K)
+theorem run_mat (c : Codec K S) {q : K → K} (hc : c.Printer q) (r : RS K S) (m : SpMat K)
     (hst : r.st = .aid1) (hbuf : r.buf = []) :
-    ∃ k, run c r (writeMat c m) = .ok { r with st := .aid2, mat := some m, matNonz := 0, rowNonz := k } := by
+    ∃ k, run c r (writeMat c m) = .ok { r with st := .aid2, mat := some (m.mapQ q), matNonz := 0, rowNonz := k } := by
   unfold writeMat
   have h1 : run c r ([.start .sparseMat] ++ el .rows (c.fmtN m.rows) ++ el .cols (c.fmtN m.cols) ++ el .nonz (c.fmtN m.nonz)) =
       .ok { r with st := .sm4, mat := some ⟨m.rows, m.cols, []⟩, matNonz := m.nonz } := by
@@ -271,14 +289,14 @@ theorem run_mat (c : Codec K S) (hc : c.Lawful) (r : RS K S) (m : SpMat K)
   refine ⟨k, ?_⟩
   obtain ⟨st, buf, mat, matNonz, rowNonz, cov, bdBlocks, bdNonz, bdDim, bdWidth, bdVec, bdVecDim, vec, vecCap, vecDim, arr, arrDim, out⟩ := r
   obtain ⟨R, C, L⟩ := m
-  simp [run_cons, run_nil, step, endEl, after, Except.bind, pure, Except.pure]
+  simp [run_cons, run_nil, step, endEl, after, Except.bind, pure, Except.pure, SpMat.mapQ]
 
 /-- `<block-diagonal> … </block-diagonal>` -/
-theorem run_cov (c : Codec K S) (hc : c.Lawful) (r : RS K S) (bs : List (Block K))
+theorem run_cov (c : Codec K S) {q : K → K} (hc : c.Printer q) (r : RS K S) (bs : List (Block K))
     (hst : r.st = .aid2) (hbuf : r.buf = [])
     (hwf : ∀ b ∈ bs, 0 < b.dim ∧ b.width < b.dim ∧ b.vals.length = packedSize b.dim b.width) :
     ∃ d w v z, run c r (writeCov c bs) =
-      .ok { r with st := .aid3, cov := some bs, bdBlocks := 0, bdNonz := 0, bdDim := d, bdWidth := w, bdVec := v, bdVecDim := z } := by
+      .ok { r with st := .aid3, cov := some (bs.map (Block.mapQ q)), bdBlocks := 0, bdNonz := 0, bdDim := d, bdWidth := w, bdVec := v, bdVecDim := z } := by
   unfold writeCov
   have h1 : run c r ([.start .blockDiagonal] ++ el .blocks (c.fmtN bs.length) ++ el .nonz (c.fmtN (covNonz bs))) =
       .ok { r with st := .bd3, cov := some [], bdBlocks := bs.length, bdNonz := covNonz bs } := by
@@ -295,9 +313,9 @@ theorem run_cov (c : Codec K S) (hc : c.Lawful) (r : RS K S) (bs : List (Block K
   simp [run_cons, run_nil, step, endEl, after, Except.bind, pure, Except.pure]
 
 /-- `<vector> … </vector>` -/
-theorem run_vec (c : Codec K S) (hc : c.Lawful) (r : RS K S) (v : List K)
+theorem run_vec (c : Codec K S) {q : K → K} (hc : c.Printer q) (r : RS K S) (v : List K)
     (hst : r.st = .aid3) (hbuf : r.buf = []) :
-    run c r (writeVec c v) = .ok { r with st := .aid4, vec := v, vecCap := v.length, vecDim := 0 } := by
+    run c r (writeVec c v) = .ok { r with st := .aid4, vec := v.map q, vecCap := v.length, vecDim := 0 } := by
   unfold writeVec
   have h1 : run c r ([.start .vector] ++ el .dim (c.fmtN v.length)) =
       .ok { r with st := .vec2, vec := [], vecCap := v.length, vecDim := v.length } := by
@@ -312,7 +330,7 @@ theorem run_vec (c : Codec K S) (hc : c.Lawful) (r : RS K S) (v : List K)
   simp [run_cons, run_nil, step, endEl, after, Except.bind, pure, Except.pure]
 
 /-- `<array> … </array>` -/
-theorem run_arr (c : Codec K S) (hc : c.Lawful) (r : RS K S) (a : List Nat)
+theorem run_arr (c : Codec K S) {q : K → K} (hc : c.Printer q) (r : RS K S) (a : List Nat)
     (hst : r.st = .aid4) (hbuf : r.buf = []) :
     run c r (writeArr c a) = .ok { r with st := .aid5, arr := some a, arrDim := 0 } := by
   unfold writeArr
@@ -338,9 +356,9 @@ structure WF (d : AdjData K) : Prop where
   cov : ∃ bs, d.cov = some bs ∧ ∀ b ∈ bs, 0 < b.dim ∧ b.width < b.dim ∧ b.vals.length = packedSize b.dim b.width
   rhs : d.rhs ≠ []
 
-/-- `readAdj (writeAdj d) = d` -/
-theorem readAdj_writeAdj (c : Codec K S) (hc : c.Lawful) (d : AdjData K) (hd : WF d) :
-    readAdj c (writeAdj c d) = .ok d := by
+/-- `readAdj (writeAdj d) = d` up to the quantisation of the printer -/
+theorem readAdj_writeAdj_printer (c : Codec K S) {q : K → K} (hc : c.Printer q) (d : AdjData K) (hd : WF d) :
+    readAdj c (writeAdj c d) = .ok (d.mapQ q) := by
   obtain ⟨dm, dc, dr, dx⟩ := d
   obtain ⟨hm, ⟨bs, hcov, hwf⟩, hr⟩ := hd
   simp only at hm hcov hr
@@ -355,18 +373,89 @@ theorem readAdj_writeAdj (c : Codec K S) (hc : c.Lawful) (d : AdjData K) (hd : W
   rw [List.append_assoc, List.append_assoc, List.append_assoc, List.append_assoc, run_append_ok c _ h0]
   obtain ⟨k, h1⟩ := run_mat c hc { (RS.init : RS K S) with st := .aid1 } m rfl rfl
   rw [run_append_ok c _ h1]
-  obtain ⟨dd, w, v, z, h2⟩ := run_cov c hc { (RS.init : RS K S) with st := .aid2, mat := some m, matNonz := 0, rowNonz := k } bs rfl rfl hwf
+  obtain ⟨dd, w, v, z, h2⟩ := run_cov c hc { (RS.init : RS K S) with st := .aid2, mat := some (m.mapQ q), matNonz := 0, rowNonz := k } bs rfl rfl hwf
   rw [run_append_ok c _ h2]
-  have h3 := run_vec c hc { (RS.init : RS K S) with st := .aid3, mat := some m, matNonz := 0, rowNonz := k, cov := some bs, bdBlocks := 0, bdNonz := 0, bdDim := dd, bdWidth := w, bdVec := v, bdVecDim := z } dr rfl rfl
+  have h3 := run_vec c hc { (RS.init : RS K S) with st := .aid3, mat := some (m.mapQ q), matNonz := 0, rowNonz := k, cov := some (bs.map (Block.mapQ q)), bdBlocks := 0, bdNonz := 0, bdDim := dd, bdWidth := w, bdVec := v, bdVecDim := z } dr rfl rfl
   rw [run_append_ok c _ h3]
   cases dx with
   | none =>
-    simp [run_cons, run_nil, step, endEl, after, RS.init, Except.bind, pure, Except.pure, Except.map, hlen]
+    simp [run_cons, run_nil, step, endEl, after, RS.init, Except.bind, pure, Except.pure, Except.map, hlen, AdjData.mapQ]
   | some a =>
-    have h4 := run_arr c hc { (RS.init : RS K S) with st := .aid4, mat := some m, matNonz := 0, rowNonz := k, cov := some bs, bdBlocks := 0, bdNonz := 0, bdDim := dd, bdWidth := w, bdVec := v, bdVecDim := z, vec := dr, vecCap := dr.length, vecDim := 0 } a rfl rfl
+    have h4 := run_arr c hc { (RS.init : RS K S) with st := .aid4, mat := some (m.mapQ q), matNonz := 0, rowNonz := k, cov := some (bs.map (Block.mapQ q)), bdBlocks := 0, bdNonz := 0, bdDim := dd, bdWidth := w, bdVec := v, bdVecDim := z, vec := dr.map q, vecCap := dr.length, vecDim := 0 } a rfl rfl
     simp only []
     rw [run_append_ok c _ h4]
-    simp [run_cons, run_nil, step, endEl, after, RS.init, Except.bind, pure, Except.pure, Except.map, hlen]
+    simp [run_cons, run_nil, step, endEl, after, RS.init, Except.bind, pure, Except.pure, Except.map, hlen, AdjData.mapQ]
+
+theorem qRow_id (row : List (Nat × K)) : qRow id row = row := by
+  simp [qRow]
+
+theorem AdjData.mapQ_id (d : AdjData K) : d.mapQ id = d := by
+  obtain ⟨m, c, r, x⟩ := d
+  have h1 : (SpMat.mapQ (id : K → K)) = id := by
+    funext m; obtain ⟨a, b, l⟩ := m; simp [SpMat.mapQ, qRow_id, show (qRow (id : K → K)) = id from funext qRow_id]
+  have h2 : (Block.mapQ (id : K → K)) = id := by
+    funext b; obtain ⟨a, b, l⟩ := b; simp [Block.mapQ]
+  simp [AdjData.mapQ, h1, h2]
+
+/-- `readAdj (writeAdj d) = d` for an exact codec -/
+theorem readAdj_writeAdj (c : Codec K S) (hc : c.Lawful) (d : AdjData K) (hd : WF d) :
+    readAdj c (writeAdj c d) = .ok d := by
+  rw [readAdj_writeAdj_printer c hc.printer d hd, AdjData.mapQ_id]
+
+/-! ### the second dump -/
+
+theorem writeRow_q (c : Codec K S) {q : K → K} (hc : c.Printer q) (row : List (Nat × K)) :
+    writeRow c (qRow q row) = writeRow c row := by
+  simp [writeRow, qRow, List.flatMap_map, hc.fmtF_q]
+
+@[simp] theorem qRow_length (q : K → K) (row : List (Nat × K)) : (qRow q row).length = row.length := by simp [qRow]
+@[simp] theorem Block.mapQ_dim (q : K → K) (b : Block K) : (b.mapQ q).dim = b.dim := rfl
+@[simp] theorem Block.mapQ_width (q : K → K) (b : Block K) : (b.mapQ q).width = b.width := rfl
+
+theorem writeMat_q (c : Codec K S) {q : K → K} (hc : c.Printer q) (m : SpMat K) :
+    writeMat c (m.mapQ q) = writeMat c m := by
+  simp [writeMat, SpMat.mapQ, SpMat.nonz, List.flatMap_map, writeRow_q c hc, Function.comp_def]
+
+theorem writeBlock_q (c : Codec K S) {q : K → K} (hc : c.Printer q) (b : Block K) :
+    writeBlock c (b.mapQ q) = writeBlock c b := by
+  simp [writeBlock, Block.mapQ, List.flatMap_map, hc.fmtF_q]
+
+theorem writeCov_q (c : Codec K S) {q : K → K} (hc : c.Printer q) (bs : List (Block K)) :
+    writeCov c (bs.map (Block.mapQ q)) = writeCov c bs := by
+  simp [writeCov, covNonz, List.flatMap_map, writeBlock_q c hc, Function.comp_def]
+
+theorem writeVec_q (c : Codec K S) {q : K → K} (hc : c.Printer q) (v : List K) :
+    writeVec c (v.map q) = writeVec c v := by
+  simp [writeVec, List.flatMap_map, hc.fmtF_q]
+
+/-- the quantised data prints exactly like the original: a second dump is identical to the first -/
+theorem writeAdj_mapQ (c : Codec K S) {q : K → K} (hc : c.Printer q) (d : AdjData K) :
+    writeAdj c (d.mapQ q) = writeAdj c d := by
+  obtain ⟨m, cv, r, x⟩ := d
+  cases m <;> cases cv <;>
+    simp [writeAdj, AdjData.mapQ, writeMat_q c hc, writeCov_q c hc, writeVec_q c hc]
+
+theorem WF.mapQ {d : AdjData K} (h : WF d) (q : K → K) : WF (d.mapQ q) := by
+  obtain ⟨hm, ⟨bs, hc, hb⟩, hr⟩ := h
+  refine ⟨by simpa [AdjData.mapQ] using hm, ⟨bs.map (Block.mapQ q), by simp [AdjData.mapQ, hc], ?_⟩,
+    by simpa [AdjData.mapQ] using hr⟩
+  intro b hb'
+  obtain ⟨b0, h0, rfl⟩ := List.mem_map.mp hb'
+  simpa [Block.mapQ] using hb b0 h0
+
+/-- a printer with a fixed number of decimal digits (as C13's `decCodec`): numbers are counted in units of 10⁻⁴ and
+    printed in units of 10⁻³, rounded up, as decimal numerals; integers are printed exactly -/
+def decCodec : Codec Nat String :=
+  ⟨fun n => Nat.repr ((n + 9) / 10), fun t => t.toNat?.map (· * 10), Nat.repr, String.toNat?⟩
+
+def decQ (n : Nat) : Nat := (n + 9) / 10 * 10
+
+theorem decCodec_printer : decCodec.Printer decQ :=
+  { rdF_fmtF := fun x => by simp [decCodec, decQ, Nat.toNat?_repr]
+    fmtF_q := fun x => by
+      have : ((x + 9) / 10 * 10 + 9) / 10 = (x + 9) / 10 := by omega
+      simp [decCodec, decQ, this]
+    rdN_fmtN := fun n => by simp [decCodec, Nat.toNat?_repr] }
 
 /-- data and codec of the non-vacuity example in `Props/C19.lean` -/
 def exampleCodec : Codec Nat Nat := ⟨id, some, id, some⟩
